@@ -9,7 +9,7 @@ import nodecheck
 from nodecheck import Obs, kv, parse_msg, parse_cfg
 
 PROP = "C10"
-MODULES = ["DV.Properties.C10"]
+MODULES = ["DV.Properties.C10", "DV.Properties.C10Conc"]
 KEEP = {"OUT": None, "APP": None}
 
 CFG = ("NODE host=node.local;realm=realm.local;idle=9999;"
@@ -290,7 +290,61 @@ def run(res: Result, tier: str, seed: int):
                 "history, DPR in between; answers arriving in time, late, duplicated, with unknown identifiers, in reverse order, "
                 "and with a foreign end-to-end id (scripted from the deterministic generator starts); oracle computes eligibility "
                 "from the configuration; real vs model on OUT/APP")
-    return nodecheck.run(res, scenarios(rng, tier), KEEP, oracle)
+    fails, div = nodecheck.run(res, scenarios(rng, tier), KEEP, oracle)
+    cf, cd = concurrent_senders(res, tier)
+    return fails + cf, div + cd
+
+
+def concurrent_senders(res: Result, tier: str):
+    """2..3 application threads sending on one connection at the same time: each request's hop-by-hop id is drawn from the
+    connection's generator (`route_request`: `conn.hop_by_hop_seq.next_sequence()`).  The current source of that method is
+    stepped line by line under every interleaving with a bounded number of preemptions; the ids the callers get must be
+    non-zero and pairwise distinct (they are all outstanding at once); each schedule is replayed on the Lean interpreter of
+    the extracted line skeleton."""
+    import c16
+    import linesched
+    from common import run_driver
+    fails, div, lines, reals = [], [], [], []
+    h = c16.helpers()
+    res.rule += ("; 2..3 threads drawing hop-by-hop ids from one connection's generator (current source of next_sequence stepped "
+                 "line by line, every interleaving with up to 3 preemptions): distinct and non-zero; schedules replayed on the "
+                 "Lean interpreter of the extracted skeleton")
+    try:
+        with linesched.deadline(300 if tier == "quick" else 1800):
+            steppers = {"seq": linesched.stepper(h.SequenceGenerator.next_sequence, inline_calls=True)}
+            total = 0
+            for (nthr, k, bound) in ([(2, 1, 3), (2, 2, 2), (3, 1, 2)] if tier == "quick" else [(2, 1, 3), (2, 2, 3), (3, 1, 3), (4, 1, 2)]):
+                for start in (5, c16.SEQ_MAX - 1):
+                    def on_run(threads, trace, start=start, nthr=nthr):
+                        outs = c16.outputs("seq", threads)
+                        sched = [c for c, _, _ in trace]
+                        lines.append(f"GENSCHED seq {start} {nthr} " + ",".join(map(str, sched)))
+                        reals.append("|".join(",".join(map(str, o)) for o in outs))
+                        bad = c16.check_outputs("seq", outs, c16.SEQ_MAX)
+                        if bad:
+                            fails.append({"what": "requests sent concurrently on one connection: " + bad +
+                                                  " (hop-by-hop ids of requests outstanding on the connection are not unique)",
+                                          "kind": "schedule", "start": start, "threads": nthr, "schedule": sched, "real": str(outs),
+                                          "line": f"next_sequence x{nthr} from {start}, schedule {sched}"})
+                            return True
+                        return False
+                    runs, _ = linesched.explore(lambda: c16.make_threads("seq", start, nthr, k, steppers)[1], bound, on_run,
+                                                max_runs=1500 if tier == "quick" else 30000)
+                    total += runs
+            res.count("concurrent senders: generator schedules", total)
+    except linesched.StepHang as e:
+        fails.append({"what": f"a sender drawing a hop-by-hop identifier never returns under some schedule ({e})", "kind": "hang",
+                      "line": "next_sequence"})
+    outs = run_driver(lines) if lines else []
+    for line, r, m in zip(lines, reals, outs):
+        res.cases += 1
+        mm = m.split(" seq=")[0]
+        if r != mm:
+            div.append({"line": line[:300], "real": r, "model": mm})
+        else:
+            res.nontrivial.add(line)
+    res.traces_validated += len(lines)
+    return fails[:5], div[:5]
 
 
 def signature(f: dict):
